@@ -39,7 +39,7 @@ def _calc_lens(tier):
 
 
 def _rx_payloads(tier):
-    return [0, 2] if tier == "quick" else [0, 1, 2, 4, 8, 12]
+    return [0, 2] if tier == "quick" else [0, 1, 2, 3]
 
 
 def instances(tier):
